@@ -305,11 +305,14 @@ func (ex *Exec) assume(c *Term) {
 
 // require is a proof obligation: cond must hold on every model of the path condition.
 func (ex *Exec) require(cond *Term, kind, label, detail string) {
+	sig := ex.harness + "|" + kind + "|" + label
 	if v, ok := ex.known(cond); ok && v {
+		if kind == "assert" && !ex.scratch {
+			ex.eng.noteObligation(sig, Unsat, "constant-folding/path-facts")
+		}
 		return
 	}
 	nc := ex.tf.BNot(cond)
-	sig := ex.harness + "|" + kind + "|" + label
 	res, model, who := ex.decideObligation(nc)
 	if ex.scratch {
 		ex.pendingNotes = append(ex.pendingNotes, oblNote{sig, res, who})
@@ -444,13 +447,22 @@ func (ex *Exec) concretize(t *Term, what string) uint64 {
 		return t.val
 	}
 	ub, ok := ex.upperBound(t)
+	if !ok {
+		if r := ex.rangeOf(t); r.lo >= 0 && r.hi <= 64 {
+			ub, ok = uint64(r.hi), true
+		}
+	}
 	if !ok || ub > 64 {
-		panic(unsupported{"cannot concretise " + what + " (no small bound): " + t.String()})
+		// no syntactic bound: enumerate semantically (the solver decides which values are possible)
+		ub = 64
 	}
 	for v := uint64(0); v <= ub; v++ {
 		if ex.branch(ex.tf.Eq(t, ex.tf.Const(t.w, v))) {
 			return v
 		}
+	}
+	if ex.feasible(ex.tf.True) {
+		panic(unsupported{"cannot concretise " + what + " (more than 64 possible values): " + clip(t.String(), 200)})
 	}
 	panic(pathEnd{"concretize exhausted"})
 }
